@@ -10,7 +10,55 @@ fn inside(b: &BoxObs, p: &[f64]) -> bool { (0..6).all(|i| b.lo[i] <= p[i] && p[i
 fn dist(a: &[f64], b: &[f64]) -> f64 { a.iter().zip(b).map(|(x, y)| (x - y) * (x - y)).sum::<f64>().sqrt() }
 fn q(x: f64) -> f64 { (x * 1024.0).round() / 1024.0 }
 
+/// end to end: RRTPlanner::plan_rrt on a robot with shapes, obstacles and (in some cells) safety distances
+pub fn e2e(tier: &str, seed: u64) {
+    use rs_opw_kinematics::kinematic_traits::{Joints, Kinematics};
+    use rs_opw_kinematics::rrt::RRTPlanner;
+    let n = if tier == "thorough" { 4000 } else { 400 };
+    let mut rng = Rng::new(seed ^ 0xC13E2E);
+    for idx in 0..n {
+        // cells of the stroke oracle: free / far / grazing / blocking box, near-miss box with a 4 cm safety distance
+        let layout = [0u64, 1, 2, 3, 5][(idx % 5) as usize];
+        let cell = crate::c12::make_cell(&mut rng, layout);
+        let step = [0.05f64, 0.1, 0.2][rng.below(3) as usize];
+        let planner = RRTPlanner { step_size_joint_space: step, max_try: 400, debug: false };
+        let start: Joints = cell.from;
+        let kind = rng.below(4);
+        let goal: Joints = match kind {
+            0 => start,                                                                        // start == goal
+            1 => std::array::from_fn(|i| start[i] + rng.range(-0.4, 0.4) * step / 2.45),        // within one step
+            _ => std::array::from_fn(|i| start[i] + rng.range(-0.8, 0.8)),
+        };
+        let lim_ok = |j: &Joints| cell.robot.constraints().as_ref().map(|c| c.compliant(j)).unwrap_or(true);
+        let clear = |j: &Joints| !cell.robot.collides(j) && (cell.env.is_empty() || crate::c12::env_distance(&cell, j) > cell.margin + 2e-4);
+        if !lim_ok(&start) || !lim_ok(&goal) || !clear(&start) || !clear(&goal) { continue; }
+        let mut direct = "ok".to_string(); let mut class = String::new();
+        let mut fail = |c: &str| { if direct == "ok" { direct = "fail".into(); class = c.into(); } };
+        // (a) a raised cancellation flag gives an error, whatever the distance between start and goal
+        let raised = AtomicBool::new(true);
+        if planner.plan_rrt(&start, &goal, &cell.robot, &raised).is_ok() { fail("C13.path_returned_although_cancelled"); }
+        // (b) an ordinary run
+        let stop = AtomicBool::new(false);
+        let res = planner.plan_rrt(&start, &goal, &cell.robot, &stop);
+        let mut npath = -1i64;
+        if let Ok(path) = &res {
+            npath = path.len() as i64;
+            if path.is_empty() || path[0] != start { fail("C13.path_does_not_begin_with_start"); }
+            if path.is_empty() || path[path.len() - 1] != goal { fail("C13.path_does_not_end_with_goal"); }
+            for p in path.iter() {
+                if cell.robot.collides(p) { fail("C13.node_collides"); }
+                if !cell.env.is_empty() { let d = crate::c12::env_distance(&cell, p); if d < cell.margin - 2e-4 || (cell.margin == 0.0 && d == 0.0) { fail("C13.node_closer_than_safety_distance"); } }
+                if !lim_ok(p) { fail("C13.node_outside_limits"); }
+            }
+            for w in path.windows(2) { let d = (0..6).map(|i| (w[0][i] - w[1][i]).powi(2)).sum::<f64>().sqrt(); if d > 3.0 * step + 1e-9 { fail("C13.hop_longer_than_three_steps"); } }
+        }
+        println!("{}", Obj::new().s("prop", "C13").s("what", "e2e").i("case", idx as i64).s("layout", cell.layout).f("step", step).i("kind", kind as i64)
+            .fs("start", &start).fs("goal", &goal).b("planned", res.is_ok()).i("nodes", npath).s("direct", &direct).s("class", &class).done());
+    }
+}
+
 pub fn main(tier: &str, seed: u64, n_override: Option<u64>) {
+    if n_override.is_none() || n_override == Some(0) { e2e(tier, seed); }
     let n = n_override.unwrap_or(if tier == "thorough" { 8_000 } else { 160 });
     let mut rng = Rng::new(seed ^ 0xC13);
     for idx in 0..n {
